@@ -136,6 +136,7 @@ def check_C11(tier, replay=None):
     if tier == "quick":
         runs.append(("MC_C11_f3", {"File": F3, "FileSeq": "<- FileSeq3", "Extras": "<- NoExtras", "Siblings": "<- Sib3", "MaxCalls": "2", "RefsOn": "FALSE"}))
         runs.append(("MC_C11_f3refs", {"File": F3, "FileSeq": "<- FileSeq3", "Extras": "<- NoExtras", "Siblings": "<- NoSib", "MaxCalls": "1", "RefsOn": "TRUE"}))
+        runs.append(("MC_C11_f3samens", {"File": F3, "FileSeq": "<- FileSeq3", "Extras": "<- NoExtras", "Siblings": "<- NoSib", "MaxCalls": "1", "RefsOn": "FALSE", "SameNs": "TRUE"}))
         runs.append(("MC_C11_f4dagrefs", {"File": F4, "FileSeq": "<- FileSeq4", "Extras": "<- NoExtras", "Siblings": "<- NoSib", "MaxCalls": "1", "RefsOn": "TRUE", "_spec": "MCSpecDag"}))
     else:
         runs.append(("MC_C11_f4", {"File": F4, "FileSeq": "<- FileSeq4", "Extras": "<- NoExtras", "Siblings": "<- Sib3", "MaxCalls": "1", "RefsOn": "FALSE"}))
@@ -149,6 +150,7 @@ def check_C11(tier, replay=None):
         consts = dict(consts, Dev=devs)
         spec_name = consts.pop("_spec", "MCSpec")
         consts.setdefault("Sample", "1")
+        consts.setdefault("SameNs", "FALSE")
         c = cfg(spec_name, consts, invariants=["TypeOK", "NoReentry", "NoOverflow", "Once", "NoUnreachable", "DanglingIsError", "RepeatSame", "EmitCase"] + ([] if dev else ["Complete"]),
                 properties=["Terminates"])
         res, vocab, cases, _ = mc_run(R, "MC_C11", c, name, workers=8)
@@ -615,7 +617,7 @@ def check_C19(tier, replay=None):
     c = cfg("MCSpec", {"NotForwarded": "{}"}, invariants=["TransparentWhenForwarding", "Emit"])
     res, vocab, cases, _ = mc_run(R, "MC_C19", c, "MC_C19", workers=4)
     # vacuity guard: with any one channel not forwarded the model must find a non-transparent value
-    for ch in ("ser", "check", "attrs", "attrs_ns", "check_memo"):
+    for ch in ("ser", "ser_state", "check", "attrs", "attrs_ns", "check_memo"):
         c2 = cfg("MCSpec", {"NotForwarded": '{"%s"}' % ch}, invariants=["TransparentBroken"])
         r2 = z.tlc(os.path.join(z.SPEC, "mc", "MC_C19.tla"), c2.replace("TransparentBroken", "TransparentAlways"), workers=2, timeout=300, name="MC_C19_no_" + ch)
         if r2["ok"]:
